@@ -9,7 +9,7 @@ from __future__ import annotations
 
 import numpy as np
 
-from mc.core import Report, viol, collect_samples
+from mc.core import Report, viol, collect_samples, Isolated, Sequence
 
 from molgri.space.rotobj import SphereGrid4DFactory, SphereGrid3DFactory
 
@@ -93,12 +93,35 @@ def cases(tier, seed):
     return out
 
 
+def _label(c):
+    return f"{c['alg']}_{c['N']}"
+
+
+def seq_cases(tier, seed):
+    """Histories of several grids built in ONE fresh process: same N with the other algorithm (both orders), the same
+    grid twice, a larger grid first, a direction grid of the same N first."""
+    def c(alg, N, dim=4):
+        return {"alg": alg, "N": N, "dim": dim, "mc_seed": seed}
+    out = []
+    for N in ((8, 20) if tier == "quick" else (5, 8, 13, 20, 33, 40)):
+        out.append({"seq": [c("cube4D", N), c("randomQ", N)]})
+        out.append({"seq": [c("randomQ", N), c("cube4D", N)]})
+        out.append({"seq": [c("randomQ", N), c("randomQ", N), c("randomQ", N + 1), c("randomQ", N)]})
+        out.append({"seq": [c("cube4D", 2 * N), c("cube4D", N), c("randomQ", 2 * N)]})
+        out.append({"seq": [c("ico", 3, 3), c("cube4D", 3), c("randomQ", N)]})
+    return out
+
+
 def run(ctx):
     rep = Report(PROPERTY, "exploration")
     mc_points(ctx.seed)     # build once in the parent, inherited by forked workers
     cs = cases(ctx.tier, ctx.seed)
-    res = ctx.pmap(run_case, sorted(cs, key=lambda c: -c["N"]), chunksize=1, recheck=2)
+    res = ctx.pmap(Isolated(run_case), sorted(cs, key=lambda c: -c["N"]), chunksize=1, recheck=2)
     for r in res:
+        rep.add_violations(r["violations"])
+    scs = seq_cases(ctx.tier, ctx.seed)
+    sres = ctx.pmap(Isolated(Sequence(run_case, _label)), scs, chunksize=1, recheck=1)
+    for r in sres:
         rep.add_violations(r["violations"])
     rep.coverage = {
         "evaluations": sum(r["cells"] for r in res),
@@ -108,6 +131,7 @@ def run(ctx):
                 "distinct_nontrivial = grids with N >= 4",
         "samples": collect_samples([f"{c['alg']}_{c['N']}" for c in cs], 6),
         "worst_cell_deviation": max(r.get("worst", 0) for r in res), "worst_sum_deviation": max(r.get("sum_dev", 0) for r in res),
+        "histories_in_one_process": len(scs), "grids_in_histories": sum(r["members"] for r in sres),
         "exhaustive": True, "bound": {"N": "1..40, 113" if ctx.tier == "quick" else "1..80, 100, 113, 150, 272, 420"},
     }
     rep.assumptions = ["oracle is statistical by the property's own definition; a cell is flagged only beyond 30 % + 5 "
@@ -116,4 +140,6 @@ def run(ctx):
 
 
 def replay(case):
+    if "seq" in case:
+        return Sequence(run_case, _label)(case)["violations"]
     return run_case(case)["violations"]
